@@ -85,7 +85,7 @@ def make_b85(case, ctx):
     elif route == "key33":
         b = B85(master_node=Prv(key=b"\x00" + k.to_bytes(32, "big"), chain_code=c))
     elif route == "from_xprv":
-        b = B85.from_xprv(rm.xprv())
+        b = B85.from_xprv(xprv=rm.xprv(), testnet=False) if k % 2 else B85.from_xprv(rm.xprv())
     elif route == "wallet":
         b = BaseWallet(master=Prv(key=k.to_bytes(32, "big"), chain_code=c)).bip85
     else:
